@@ -49,10 +49,12 @@ mut(cp, "cp-form-int64", "PredictDataForm", lambda e: e["forms"][1]["pred"]["dat
 mut(cp, "cp-form-raised", "PredictRaised", lambda e: e["forms"][3].__setitem__("raised", True))
 mut(cp, "cp-form-missing", "DataForms", lambda e: e["forms"].pop())
 mut(cp, "cp-iterations", "IterationBudget", lambda e: e["fit"].__setitem__("n_iter", 41))
+mut(cp, "cp-refit-pred", "RefitPredict", bump(["refit", "pred"], 0, 40))
+mut(cp, "cp-refit-vec", "RefitVecW", swap(["refit", "vec"], 0, 1))
 mut(tk, "tucker-core", "DenseDefinition", flipmax(["factors", "core"]))
 mut(tk, "tucker-pred", "Predict", bump(["pred"], 5, 5))
 mut(pl, "pls-transform", "TransformIsScores", bump(["base", "transform"], 1, 5))
-mut(pl, "pls-unit", "UnitLoadings", lambda e: e["permfit"]["loads"][0].__setitem__("data", [2 * x for x in e["permfit"]["loads"][0]["data"]]))
+mut(pl, "pls-unit", "UnitLoadings", lambda e: e["shiftx"]["loads"][0].__setitem__("data", [2 * x for x in e["shiftx"]["loads"][0]["data"]]))
 mut(pl, "pls-shiftx", "ShiftXPredict", bump(["shiftx", "pred"], 0, 5))
 mut(pl, "pls-shifty", "ShiftYPredict", bump(["shifty", "pred"], 0, 1000000))
 mut(pl, "pls-yload", "ShiftYLoadings", lambda e: e["shifty"]["yload"]["data"].__setitem__(0, -e["shifty"]["yload"]["data"][0]))
@@ -60,6 +62,9 @@ mut(pl, "pls-yscores", "TransformYIsYScores", bump(["extra", "yt"], 0, 4000))
 mut(pl, "pls-fit-transform", "FitTransform", bump(["extra", "fty"], 0, 5))
 mut(pl, "pls-form-transform", "TransformDataForm", lambda e: e["extra"]["forms"][0]["transform"]["data"].__setitem__(0, e["extra"]["forms"][0]["transform"]["data"][0] + 5))
 mut(pl, "pls-form-predict", "PredictDataForm", lambda e: e["extra"]["forms"][1]["pred"]["data"].__setitem__(0, e["extra"]["forms"][1]["pred"]["data"][0] + 5))
+mut(pl, "pls-bad-fit-accepted", "BadFitNotRejected", lambda e: e["extra"]["reject"].update(raised=False, exc=""))
+mut(pl, "pls-reject-changed", "RejectedFitChangedModel", bump(["extra", "reject", "pred"], 0, 7))
+mut(pl, "pls-refit", "RefitIndependent", bump(["extra", "refit", "scores"], 0, 7))
 def permswap(e): e["perm"][0], e["perm"][1] = e["perm"][1], e["perm"][0]
 mut(pl, "pls-perm", "PermScores", permswap)
 mut(pl, "pls-nan", "Finite", lambda e: e["base"]["scores"]["data"].__setitem__(0, 2000000001))
